@@ -198,7 +198,7 @@ def ref_template_body(s: str) -> Optional[str]:
     return None
 
 
-def ref_apply(doc, env, container_keys: bool = True):
+def ref_apply(doc, env, container_keys: bool = True, exact: bool = False):
     """what the property says `apply` returns: every `{{ e }}` (leaf, list element, dict value, dict key) replaced
     by the value of e, everything else unchanged, excluded keys dropped.  container_keys=False is the variant
     that leaves keys of dict/list-valued entries alone (what the code does) - used only to classify a failure."""
@@ -206,7 +206,7 @@ def ref_apply(doc, env, container_keys: bool = True):
         if isinstance(x, str):
             body = ref_template_body(x)
             if body is not None:
-                return ref_eval(body, env, exact=False)[0]
+                return ref_eval(body, env, exact=exact)[0]
         return x
 
     def go(d):
@@ -271,6 +271,22 @@ def env_json(env):
     return [[k, frac_str(Fraction(v))] for k, v in env.items() if v is not None]
 
 
+def lean_matches_exact_reference(lean_apply: dict, doc, env) -> bool:
+    """the model's result is what exact arithmetic gives (used when the implementation's float rounding moved a
+    value across a floor / ceil / comparison boundary)"""
+    try:
+        try:
+            exp = ("v", ref_apply(doc, env, container_keys=False, exact=True))
+        except RefError as e:
+            exp = ("e", e.cls)
+    except Exception:  # noqa: BLE001 - outside the reference's scope (corner documents): no second opinion
+        return False
+    if exp[0] == "e":
+        return lean_apply.get("e") == exp[1]
+    c = Cmp()
+    return "v" in lean_apply and c.same(lean_apply["v"], exp[1]) and c.inexact == 0
+
+
 class Cmp:
     """compare a Lean document (JSON) with a Python document; numbers exactly or within TOL"""
 
@@ -293,7 +309,7 @@ class Cmp:
             return (lj is py) if isinstance(lj, bool) else (isinstance(lj, dict) and "n" in lj and self.num(lj["n"], int(py)))
         if py is None or isinstance(py, str):
             return type(lj) is type(py) and lj == py
-        if isinstance(py, (int, float)):
+        if isinstance(py, (int, float, Fraction)):
             return isinstance(lj, dict) and "n" in lj and self.num(lj["n"], py)
         if isinstance(py, list):
             return isinstance(lj, list) and len(lj) == len(py) and all(self.same(a, b) for a, b in zip(lj, py))
@@ -338,8 +354,9 @@ def ws(rng) -> str:
     return rng.choice(["", "", " ", " ", "  ", "\t", " \t "])
 
 
-def gen_expr(rng, depth: int, decimal: bool, names) -> str:
-    """text from the evaluator's grammar; `depth` bounds the nesting of parentheses / calls / negations"""
+def gen_expr(rng, depth: int, decimal: bool, names, pow2_only: bool = False) -> str:
+    """text from the evaluator's grammar; `depth` bounds the nesting of parentheses / calls / negations;
+    pow2_only: divisors are powers of two, so dyadic inputs give dyadic (float-exact) values throughout"""
     nums = DECIMAL_NUMS if decimal else DYADIC_NUMS
 
     def factor(d) -> str:
@@ -365,7 +382,7 @@ def gen_expr(rng, depth: int, decimal: bool, names) -> str:
         s = factor(d)
         while rng.random() < 0.38:
             op = rng.choice(["*", "/", "//", "*", "//"])
-            if op != "*" and rng.random() < 0.6:
+            if op != "*" and (pow2_only or rng.random() < 0.6):
                 rhs = rng.choice(POW2)
             else:
                 rhs = factor(d)
@@ -420,8 +437,8 @@ PLAIN_STRINGS = ["name", "skill_level", "", " ", "{{ }}", "{{}}", "{ { 1 } }", "
 
 
 def template_text(rng, e: str) -> str:
-    pre = rng.choice(["", "", " ", "\t", "\n ", " "])
-    post = rng.choice(["", "", " ", "\n", " \t", " "])
+    pre = rng.choice(["", "", " ", "\t", "\n ", "\u2003", "\xa0"])
+    post = rng.choice(["", "", " ", "\n", " \t", "\u2003", "\x0b"])
     return pre + "{{" + e + "}}" + post
 
 
@@ -751,7 +768,7 @@ def main(ck: Check):
                 pass
         req = {"fn": "c15_apply", "doc": doc_json(doc), "env": env_json(env)}
 
-        def h(res, real=real, req=req):
+        def h(res, real=real, req=req, doc=before, env=env):
             if "ok" not in res:
                 return disagree("ArithmeticPatch.apply", req, res, real)
             r = res["ok"]
@@ -761,12 +778,12 @@ def main(ck: Check):
                 return disagree("model: apply = spec on a well-formed document", req, r, real)
             if real[0] == "e":
                 doc_classes["errors"] += 1
-                if a.get("e") != real[1]:
-                    disagree("ArithmeticPatch.apply (error)", req, a, real)
-                return
-            c = Cmp()
-            if "v" not in a or not c.same(a["v"], real[1]):
-                disagree("ArithmeticPatch.apply", req, a, real)
+            agree = (a.get("e") == real[1]) if real[0] == "e" else ("v" in a and Cmp().same(a["v"], real[1]))
+            if not agree:
+                if lean_matches_exact_reference(a, doc, env):
+                    float_divergence[0] += 1
+                else:
+                    disagree("ArithmeticPatch.apply", req, a, real)
         add(req, h)
 
     for i in range(n_doc):
@@ -780,7 +797,7 @@ def main(ck: Check):
             if r < 0.3:
                 return rng.choice([" nosuchvar ", " 1 / 0 ", " 1 + ", " 2 // zero "])
             # keys stay dyadic so that key collisions are the same for floats and rationals
-            return gen_expr(rng, rng.randint(0, 3), decimal_vals and position != "key", VAR_NAMES)
+            return gen_expr(rng, rng.randint(0, 3), decimal_vals and position != "key", VAR_NAMES, pow2_only=position == "key")
         st: dict[str, int] = {}
         doc = gen_doc(rng, rng.randint(1, 4), make_expr, allow_none_elem=False, stats=st)
         for k, v in st.items():
@@ -818,7 +835,7 @@ def main(ck: Check):
         env = gen_env(rng, False)
 
         def make_expr(position):
-            return gen_zero_expr(rng, VAR_NAMES) if rng.random() < 0.2 else gen_expr(rng, rng.randint(0, 2), False, VAR_NAMES)
+            return gen_zero_expr(rng, VAR_NAMES) if rng.random() < 0.2 else gen_expr(rng, rng.randint(0, 2), False, VAR_NAMES, pow2_only=True)
         data = gen_doc(rng, rng.randint(1, 3), make_expr, False, {})
         if not isinstance(data, dict):
             data = {"value": data}
@@ -855,6 +872,17 @@ def main(ck: Check):
             again = ("e", err_class(e))
         if real[0] != again[0] or not (strict_eq(real[1], again[1])):
             fail("Spec.interpret", "second-interpretation-differs", data=snap, patch=patch_names, first=real[1], second=again[1])
+        if again[0] == "v":
+            real = (real[0], copy.deepcopy(real[1]))     # the mutation below may reach it through shared containers
+            if again[1] is spec.data:
+                fail("Spec.interpret", "result-is-Spec.data-itself", data=snap, patch=patch_names,
+                     given=[type(p).__name__ for p in given or []])
+            else:
+                mutate_deep(again[1])
+                if not strict_eq(spec.data, snap):
+                    fail("Spec.interpret", "result-shares-containers-with-stored-data", data=snap, declared_patch=patch_names,
+                         chain=[type(p).__name__ for p in given or []],
+                         detail="mutating a nested list/dict of the returned dict changed Spec.data")
         if patch_names is None:
             interp_classes["no_patch_list"] += 1
         interp_classes["ok" if real[0] == "v" else ("mismatch" if real[1] == "mismatch" else "other_error")] += 1
@@ -887,7 +915,7 @@ def main(ck: Check):
         env = {k: v for k, v in variables.items() if v is not None}
         req = {"fn": "c15_apply", "doc": doc_json(raw), "env": env_json(env)}
 
-        def h(res, result=result, req=req, ref_agrees=ref_agrees):
+        def h(res, result=result, req=req, ref_agrees=ref_agrees, raw=raw, env=env):
             per_point["ArithmeticPatch.apply (shipped spec)"] = per_point.get("ArithmeticPatch.apply (shipped spec)", 0) + 1
             if "ok" not in res or "v" not in res["ok"]["apply"]:
                 return disagree("ArithmeticPatch.apply (shipped spec)", req, res, result)
@@ -896,9 +924,9 @@ def main(ck: Check):
                 return disagree("shipped spec is well-formed (Doc.wf)", req, res["ok"]["wf"], result)
             if not c.same(res["ok"]["apply"]["v"], result):
                 # exact floor/ceil of a decimal product may differ from the float one: count, do not fail, when the
-                # float reference agrees with the implementation (checked in shipped_specs)
+                # float reference agrees with the implementation and the exact reference with the model
                 float_divergence[0] += 1
-                if not ref_agrees:
+                if not (ref_agrees and lean_matches_exact_reference(res["ok"]["apply"], raw, env)):
                     disagree("ArithmeticPatch.apply (shipped spec)", req, res["ok"]["apply"], result)
         add(req, h)
 
@@ -979,9 +1007,16 @@ def shipped_specs(ck: Check, fail, quick: bool) -> dict:
 
     def checked_interpret(self, patches=None):
         idx = by_data.get(id(self.data))
+        d0 = self.data
         snap = copy.deepcopy(self.data)
         r1 = orig_interpret(self, patches)
         out["interpret_calls"] += 1
+        if self.data is not d0:
+            fail("Spec.interpret", "Spec.data-rebound-by-interpret", spec=dict(self.metadata.label), declared_patch=self.patch)
+            self.data = d0
+        if r1 is d0:
+            fail("Spec.interpret", "result-is-Spec.data-itself", spec=dict(self.metadata.label), declared_patch=self.patch)
+            return copy.deepcopy(r1)
         chain = tuple(type(p).__name__ for p in patches) if patches is not None else None
         key = f"{self.kind}: declared={self.patch} given={list(chain) if chain is not None else None}"
         out["chains"][key] = out["chains"].get(key, 0) + 1
@@ -1003,7 +1038,11 @@ def shipped_specs(ck: Check, fail, quick: bool) -> dict:
                      chain=chain, detail="mutating a nested list/dict of the returned dict changed Spec.data in the repository")
             self.data.clear()
             self.data.update(copy.deepcopy(snap))     # repair the store so that the run goes on; r1 shares the
-            return orig_interpret(self, patches)      # mutated containers too, so hand out a fresh result
+            if self.data is not d0:                   # mutated containers too, so hand out a fresh result
+                self.data = d0
+                d0.clear()
+                d0.update(copy.deepcopy(snap))
+            return orig_interpret(self, patches)
         else:
             r3 = orig_interpret(self, patches)
             if not strict_eq(r1, r3):
@@ -1043,12 +1082,15 @@ def shipped_specs(ck: Check, fail, quick: bool) -> dict:
                 if ck.own_time_left() < 20:
                     ck.notes.append(f"shipped-spec sweep stopped at {job}/{v}: budget")
                     break
-                env = make_env(job, v)       # get_passive / get_damage_logic are called while the environment is built
-                get_skill_components(env)
-                B.get_damage_logic(JobType(job), env.combat_orders_level)
-                B.get_builtin_strategy(JobType(job))
-                B.get_passive(JobType(job), env.combat_orders_level, env.passive_skill_level, env.level,
-                              weapon_pure_attack_power=env.weapon_pure_attack_power)
+                try:
+                    env = make_env(job, v)       # get_skill_profile etc. are called while the environment is built
+                    get_skill_components(env)
+                    B.get_damage_logic(JobType(job), env.combat_orders_level)
+                    B.get_builtin_strategy(JobType(job))
+                    B.get_passive(JobType(job), env.combat_orders_level, env.passive_skill_level, env.level,
+                                  weapon_pure_attack_power=env.weapon_pure_attack_power)
+                except Exception as e:  # noqa: BLE001 - the real builders must not raise on shipped data
+                    fail("build_skills", "builder-raised", job=job, variant=v, error=f"{type(e).__name__}: {str(e)[:300]}")
         # specs the builders did not reach in this run: the generic chains, directly
         from simaple.data.jobs.patch import SkillLevelPatch
         rest = [i for i in range(len(repo._db)) if i not in touched]
